@@ -50,7 +50,10 @@ def cases(draw, stratum):
         kinds = ['RenameAppLabel', 'RenameModel', 'RenameField', 'AddField', 'DeleteField']
     if stratum == 'known':
         avoid = set()
-    opts = mutgen.WalkOpts(kinds=kinds, max_len=6, avoid=avoid)
+    if stratum == 'pk':
+        # renames of referenced primary keys between other mutations of the referring models
+        kinds = ['AddField', 'RenameField', 'DeleteField', 'ChangeField']
+    opts = mutgen.WalkOpts(kinds=kinds, max_len=6, avoid=avoid, pk_rename=(stratum == 'pk'))
     seq, _final = draw(mutgen.walks(spec, feats, opts))
     rows, links = draw(EC.rows_for(spec, [m for m in seq if m['kind'] != 'RenameAppLabel'], 3)) \
         if stratum != 'applabel' else ({}, {})
@@ -59,7 +62,7 @@ def cases(draw, stratum):
 
 def jobs(tier, scale=1.0):
     per = int((200 if tier == 'quick' else 8000) * scale)
-    strata = ['main', 'applabel', 'main', 'known']
+    strata = ['main', 'applabel', 'pk', 'known']
     return [{'kind': 'hyp', 'stratum': strata[i % 4], 'shard': i, 'examples': per}
             for i in range(16)]
 
@@ -190,6 +193,32 @@ def check(case):
             for row in bad:
                 atoms.append(['fk_check', row[0], row[2]])
             out['labels'].append('db_level')
+            if any(m['kind'] == 'RenameField' and m['old'] == 'id' for m in seq):
+                out['labels'].append('referenced_pk_renamed')
+        # the same invariants on the production (one optimised batch) execution
+        from .. import findings as F
+        flags, _t = F.c03_flags(dict(case, cuts=[]), {})
+        model_level = any('model_level' in fl for fl in flags.values())
+        if model_level:
+            # batches with RenameModel/DeleteModel next to other mutations are known to
+            # diverge from the one-at-a-time run (F-C03-4, reported by the C03 check)
+            out['labels'].append('batch_skipped(F-C03-4)')
+        if not atoms and len(seq) > 1 and not res['rejected'] and not model_level:
+            resb = EC.run_case(case, want_rows=True, batch=True)
+            if resb['rejected'] or any(a[0] in ('exception', 'hint_rejected')
+                                        for a in resb['atoms']):
+                out['labels'].append('batch_failed(C03)')
+            else:
+                dump = resb['actual_dump']
+                for t, d in dump.items():
+                    for col, tt, tc in d['fks']:
+                        if tt not in dump:
+                            atoms.append(['batch_fk_target_table_missing', t, col, tt])
+                        elif tc not in {c[0] for c in dump[tt]['columns']}:
+                            atoms.append(['batch_fk_target_column_missing', t, col, tt, tc])
+                for row in (resb.get('fk_check') or []):
+                    atoms.append(['batch_fk_check', row[0], row[2]])
+                out['labels'].append('db_level_batch')
     from ..run import sha
     out['nontrivial_keys'] = [sha({'spec': case['spec'], 'seq': case['seq']})]
     out['sample'] = {'spec': case['spec'], 'seq': [render.describe(m) for m in seq]}
